@@ -180,18 +180,18 @@ func genQuant(t *rapid.T, atom *Node) *Node {
 
 func genTerm(t *rapid.T, o GenOpts, depth int) *Node {
 	switch k := rapid.IntRange(0, 19).Draw(t, "term"); {
-	case k == 0:
-		return &Node{Kind: KBOL}
-	case k == 1:
-		return &Node{Kind: KEOL}
-	case k == 2:
-		return &Node{Kind: KWordB}
-	case k == 3:
-		return &Node{Kind: KNWordB}
-	case k < 11:
-		return genQuant(t, genAtom(t, o, depth))
-	default:
+	case k < 9:
 		return genAtom(t, o, depth)
+	case k < 16:
+		return genQuant(t, genAtom(t, o, depth))
+	case k == 16:
+		return &Node{Kind: KBOL}
+	case k == 17:
+		return &Node{Kind: KEOL}
+	case k == 18:
+		return &Node{Kind: KWordB}
+	default:
+		return &Node{Kind: KNWordB}
 	}
 }
 
